@@ -23,6 +23,9 @@ CLAIMED['C37'] = ("every sequence of k<=5 add/refresh/remove/tick operations on 
 CLAIMED['C09'] = ("range rule: every int64 key against 1..6 tables with a symbolic rows-per-table limit is placed in exactly its half-open interval or rejected, numeric string keys likewise; calendar rules: the three spellings of the same instant (boundary-rich date list x every second of the day) give the same period index; arbitrary string keys <= 11 bytes never panic",
     "calendar dates come from a boundary list (first/last day of every month of 8 (quick) / 18 (thorough) years), not every day; proxy time zone fixed to UTC; Parse{Year,Month,Day}Range are not covered yet; acceptance of malformed date strings is recorded as known findings C09-*")
 
+CLAIMED['C29'] = ("after a reload of one namespace, a deletion or a clone of the user manager, the (user,password) pairs that authenticate and the namespace each binds to are exactly the configured ones, for 2 namespaces x 1..2 users with symbolic names/passwords over an alphabet containing ':' and '*', probed with every configured pair and one arbitrary pair; credential keys are injective for arbitrary strings <= 2 bytes",
+    "one operation from a freshly built manager (not arbitrary histories); names 1 byte, passwords <= 2 bytes; password *verification* (scrambles) is C30's subject")
+
 NA_REASON = "check not built yet (work in progress; see DESIGN.md section 3 for the planned harness)"
 NA = {}
 
